@@ -48,6 +48,13 @@ def children_of(shape, p):
     return [i for i, q in enumerate(shape) if q == p]
 
 
+def max_siblings(shape):
+    """Largest number of children below one parent (incl. the top level)."""
+    if not shape:
+        return 0
+    return max(len(children_of(shape, p)) for p in range(-1, len(shape)))
+
+
 def depth_of(shape, i):
     d = 1
     while shape[i] != -1:
